@@ -270,7 +270,7 @@ def _cli_case(ctx, d, rng, tmp, it, opt):
         from tme.matching_utils import get_rotation_matrices
         Rset = get_rotation_matrices(angular_sampling=60, dim=3)
         ref_res = S.run_subsets(score, target, template, rotations=Rset, pad=pad_fourier, order=1, splits={}, pad_edges=bool(pad_edges or split),
-                                callback_args={"score_threshold": 0.0})
+                                callback_args={"score_threshold": 0.0}, target_mask=np.ones(ns) if score == "MCC" else None)
         a, b_ = np.asarray(data[0], np.float64), np.asarray(ref_res[0], np.float64)
         close = a.shape == b_.shape and float(np.max(np.abs(a - b_))) <= (2e-3 if score not in ("CC", "LCC") else 1e-3 * max(1.0, float(np.abs(b_).max())))
         ctx.agree("score map in the result file == in-process scan_subsets on the same data", inp, bool(close), True)
